@@ -278,7 +278,7 @@ def w_config(item, seed=0, n=4, scratch="/tmp"):
             Pb = build(obj_type, modes, seed, learn)
             b = start(Pb, okind, sname, learn, sched)
             for k in range(0, n + 1) if paths else []:
-                if neutral == "failed_noraw_save":
+                if neutral == "failed_noraw_save" and k == 0:  # once, at the start: whatever it leaves behind is STALE later
                     # a write-once save (without raw data) onto an existing path is refused: it must leave nothing behind
                     # on the live object either (temporaries attached for the save), whatever is saved or loaded later
                     blocked = os.path.join(sub, "exists.zip")
